@@ -19,10 +19,18 @@ REACH_FILES = ['d42/substitution/_substitutor.py', 'd42/substitution/_validator.
 TIERS = {"quick": dict(shards=16, cases=5000), "thorough": dict(shards=16, cases=70000)}
 
 
+PROF5 = None
+
+
 def run_case(ctx, rng, case):
     from ..gen_spec import gen_spec
     from ..gen_subst import PROF, partialise
-    spec = gen_spec(rng, PROF)
+    global PROF5
+    if PROF5 is None:
+        import copy
+        PROF5 = copy.copy(PROF)
+        PROF5.p_shape = PROF.p_shape / 5    # every case costs (#values x #perturbations x size): shaped specs are rarer here
+    spec = gen_spec(rng, PROF5)
     schema = O.try_build(ctx, spec)
     if schema is None:
         return
@@ -33,7 +41,12 @@ def run_case(ctx, rng, case):
     try:
         w = witness(spec, rng, rng.choice(("rand", "min", "max")))
         cands.append((w, "complete"))
-        cands.append((partialise(spec, w, rng, rng.choice((0.2, 0.5, 0.9))), "partial"))
+        pw = partialise(spec, w, rng, rng.choice((0.2, 0.5, 0.9)))
+        cands.append((pw, "partial"))
+        if isinstance(w, list) and w and isinstance(pw, list) and spec.get("form") == "elems" and len(w) <= 8:
+            # several (partial) copies of the declared window in one value: whichever of them a window search settles
+            # on, the others must still be held to the original's element constraints
+            cands.insert(rng.randint(0, 2), (rng.choice((pw + pw, w + pw, pw + w, pw[-1:] + pw, pw + pw[:1])), "partial_doubled"))
         ps = list(perturbations(w, rng, spec))
         k = 14 if ctx.tier == "quick" else 40
         if len(ps) > k:
